@@ -511,7 +511,7 @@ class ConfigReplayer:
         if len(keys) != len(case["keys"]):
             raise MachineryError("key vector length mismatch")
         vals = {}
-        sup = self.table["supplied"]
+        sup = case.get("sup") or self.table["supplied"]     # the value class this configuration uses
         for r in self.table["required"][mode]:
             if r == "timestep":
                 vals[("input", r)] = self.render(sup["timestep"])
